@@ -2,6 +2,7 @@
  * usage: tpmdrv <Cxx> <seed> <quick|thorough> <trace-out> [extra]                                  */
 #include "core.h"
 #include "scen_c16.h"
+#include "scen_tpm12.h"
 
 int main(int argc, char **argv) {
     if (argc < 5) { fprintf(stderr, "usage: tpmdrv Cxx seed tier trace [extra]\n"); return 2; }
@@ -15,6 +16,8 @@ int main(int argc, char **argv) {
     TPMLIB_SetDebugLevel(0);
     tr("meta prop=%s seed=%llu tier=%s", prop, (unsigned long long)seed, argv[3]);
     if (!strcmp(prop, "C16")) scen_c16(thorough ? 400 : 40, thorough ? 120 : 50);
+    else if (!strcmp(prop, "C18")) scen_c18(thorough ? 60 : 12, thorough ? 4000 : 1500);
+    else if (!strcmp(prop, "R12") && argc >= 6) scen_replay12(argv[5]);
     else { fprintf(stderr, "no scenario for %s\n", prop); return 2; }
     TPMLIB_Terminate();
     tr("end cmds=%ld ok=%ld faults=%ld", g_n_cmds, g_n_ok, g_fault_fired);
